@@ -366,11 +366,15 @@ func ruleC19CloseOnExit(c *Ctx) {
 		if !ok {
 			continue
 		}
-		mc, ok := d.Call.Value.(*ssa.MakeClosure)
-		if !ok {
+		var cl *ssa.Function
+		if mc, ok := d.Call.Value.(*ssa.MakeClosure); ok {
+			cl = mc.Fn.(*ssa.Function)
+		} else if g := staticCallee(d); g != nil && g.Blocks != nil && g.Pkg != nil && g.Pkg.Pkg.Path() == pkgServer {
+			cl = g // a deferred method/function of this package
+		}
+		if cl == nil {
 			continue
 		}
-		cl := mc.Fn.(*ssa.Function)
 		allInstrs(cl, func(j ssa.Instruction) {
 			if isHandlerInvoke(j, "Close") {
 				if knownNonNil(callOf(j).Value, j.Block()) {
